@@ -29,6 +29,7 @@ def run(ck, fb):
     r03j(ck, fb)
     r03k(ck, fb)
     r03l(ck, fb)
+    r03m(ck, fb)
     ck.borrow('rules.c02', {'R02a': 'R03h'}, 'the index-area rewind of strip_log_to sizes what write() stored')
 
 
@@ -370,8 +371,12 @@ def r03j(ck, fb):
     tl = Taint(b, call_src=lambda t: (t.get('f') or {}).get('d', '') == 'std::vec::Vec::<T, A>::len')
     subs = [st for (i, j, st) in b.stmts() if st.get('rv', {}).get('k') == 'bin' and st['rv']['op'] in ('Sub', 'SubWithOverflow')
             and tl.op_tainted(st['rv']['a']) and isinstance(st.get('d'), int)]
-    if not ck.require(len(subs) >= 1, 'R03j', 'strip_log_to_index:kept=len-pop', b.where(),
-                      'no subtraction len() - pop_count is computed: the number of files to keep is not derived from the list length'):
+    if not subs:
+        # another way to say "keep the files that begin at or before the cut": a count / position taken over the ordered list by comparing each
+        # range's start index with the cut point (partition_point, position, take_while, retain); R03m judges the comparison itself
+        alt = [s0 for x in util.region(fb, b) for s0 in x.calls(r'::(partition_point|position|take_while|retain|rposition|binary_search_by)')]
+        ck.require(bool(alt), 'R03j', 'strip_log_to_index:kept=len-pop', b.where(),
+                   'the number of files to keep is neither len() - pop_count nor a position found by comparing start indexes with the cut point')
         return
     tk = Taint(b, local_src=[st['d'] for st in subs])
     n = 0
@@ -428,3 +433,47 @@ def r03l(ck, fb, R='R03l'):
     ck.require(len(w) >= 1, R, 'strip_log_to:last_term-recomputed', b.where(),
                'strip_log_to never assigns last_term: entries 1..=3 in term 1 and 4..=6 in term 2, delete_logs_from(4): get_last_log_index = (3, term 2); '
                'after a restart the same store answers (3, term 1)', 'assigned after the truncation')
+
+
+def r03m(ck, fb, R='R03m'):
+    ck.rule(R, 'the file whose first entry is the cut point is emptied, not dropped and not skipped: delete_logs_from(k) reaches every log file through '
+               'RaftLogManager::strip_log_to_index, which drops a file from the list only if k < start_index (strictly: every comparison of the cut '
+               'point with a range\'s start_index in that function reads "end_index < start_index" or its negation), and each file actor that gets '
+               'StripLogToIndex(k) calls strip_log_to(k) unconditionally. With "<=" on either side the file that begins exactly at k is neither '
+               'dropped nor stripped: its entries stay readable, the append at k is refused, also after a restart')
+    b = ck.body(LM + 'strip_log_to_index', R)
+    if b:
+        n = 0
+        flip = {'Lt': 'Gt', 'Gt': 'Lt', 'Le': 'Ge', 'Ge': 'Le', 'Eq': 'Eq', 'Ne': 'Ne'}
+        for x in util.region(fb, b):
+            for (i, j, st) in x.stmts():
+                rv = st.get('rv')
+                if not rv or rv['k'] != 'bin' or rv['op'] not in flip:
+                    continue
+                fa, fbb = cfg.origin_fields(x, rv['a'])[-1:], cfg.origin_fields(x, rv['b'])[-1:]
+                da, db = cfg.fmt_desc(cfg.strip_calls(x, cfg.describe_operand(x, rv['a']))), cfg.fmt_desc(cfg.strip_calls(x, cfg.describe_operand(x, rv['b'])))
+
+                def is_cut(d, f):
+                    return 'end_index' in d or 'arg' in d and f == [] or (x.parent and f and str(f[0]).isdigit() and 'start_index' not in d)
+                op = None
+                if fbb == ['start_index'] and fa != ['start_index']:
+                    op = rv['op']                      # cut OP start
+                elif fa == ['start_index'] and fbb != ['start_index']:
+                    op = flip[rv['op']]                # start OP cut  ->  cut flip(OP) start
+                if op is None:
+                    continue
+                n += 1
+                ck.require(op in ('Lt', 'Ge'), R, 'strip_log_to_index:boundary', x.where(i),
+                           'the cut point is compared with a range\'s start_index as "cut %s start": the range that begins exactly at the cut point is treated '
+                           'like the ranges behind it (dropped from the list with its records still in the file, or kept but never asked to strip)' % op,
+                           'cut %s start' % op)
+        ck.floor(R, 'comparisons of the cut point with start_index', n, 1)
+    h = ck.main(RL + 'LogInnerManager::handle_request', R)
+    if h:
+        cs = [s0 for s0 in h.calls(re.escape(RL + 'LogInnerManager::strip_log_to') + '$')]
+        ck.floor(R, 'strip_log_to calls in handle_request', len(cs), 1)
+        for s0 in cs:
+            extra = [cfg.fmt_atom(a) for a in cfg.guard_atoms(h, s0.bb) if a[0] in ('cmp', 'field', 'call') and not re.search(r'poll|Try>::branch|into_future', cfg.fmt_atom(a))]
+            ck.require(not extra, R, 'handle_request:StripLogToIndex-always-strips', s0.where(),
+                       'a file actor that is told to strip at k does so only if %s: together with the manager, which drops a file only for k < start_index, '
+                       'the file that starts at k is left as it is' % extra, 'unconditional')
